@@ -219,6 +219,6 @@ func vfC19BlankObjectShape(path string, body *vfC19Val, st *vfC19Style) bool {
 		return false
 	}
 	probe := *st
-	text, _ := vfC19Ser(body, &probe)
-	return text != "{}"
+	text, _ := vfC19SerDoc(body, &probe)
+	return strings.TrimSpace(text) != "{}"
 }
